@@ -122,6 +122,15 @@ def to_coq(f):
     return "(%s %s %s)" % ("FAnd" if t == "&" else "FOr", to_coq(f[1]), to_coq(f[2]))
 
 
+NARY = {"on": False}      # build same-operator chains as ONE n-ary pysmt node (the API allows it; the parser never does)
+
+
+def _flat(f, op):
+    if f[0] == op:
+        return _flat(f[1], op) + _flat(f[2], op)
+    return [f]
+
+
 def to_pysmt(f, sig):
     from pysmt.shortcuts import FALSE, TRUE, Symbol
     from pysmt.shortcuts import And as PA
@@ -137,6 +146,9 @@ def to_pysmt(f, sig):
         return Symbol(sig[f[1]])
     if t == "!":
         return PN(to_pysmt(f[1], sig))
+    if NARY["on"]:
+        parts = [to_pysmt(g, sig) for g in _flat(f, t)]
+        return PA(*parts) if t == "&" else PO(*parts)
     if t == "&":
         return PA(to_pysmt(f[1], sig), to_pysmt(f[2], sig))
     return PO(to_pysmt(f[1], sig), to_pysmt(f[2], sig))
@@ -309,9 +321,14 @@ def build_bb(case, which="base", name="bb"):
 
     sig = case["sig"]
     conds = {}
-    for (k, b, a) in case[which]:
-        conds[k] = Conditional(to_pysmt(b, sig), to_pysmt(a, sig), cond_text((k, b, a), sig))
-    return BeliefBase(list(sig), conds, name)
+    NARY["on"] = bool(case.get("nary"))
+    try:
+        for (k, b, a) in case[which]:
+            conds[k] = Conditional(to_pysmt(b, sig), to_pysmt(a, sig), cond_text((k, b, a), sig))
+    finally:
+        NARY["on"] = False
+    # "declared": the signature handed to BeliefBase may leave out atoms the conditionals mention (the API does not forbid it)
+    return BeliefBase(list(case.get("declared") or sig), conds, name)
 
 
 def build_queries(case):
